@@ -13,3 +13,71 @@ package byron
 //@   ensures split: r < n && n <= 2*r
 //@   loop 0 invariant power >= 1 && power & (power-1) == 0 && power < n && power <= 1<<61
 //@   loop 0 decreases n - power
+
+// BEGIN generated C01 contracts (tools/gen_c01_contracts.py in /verif)
+// C01: a decoder that keeps its input stores exactly the bytes it was given; an identifier
+// is Blake2b-256 of the stored bytes (the cache, when set, holds that hash).
+//@ func (h *ByronMainBlockHeader) UnmarshalCBOR(cborData) (err)
+//@   props C01
+//@   attr maxpaths 4000
+//@   attr safe off
+//@   requires recv: h != nil
+//@   ensures stored: err == nil ==> seq(h.cborData) == seq(cborData) && len(h.cborData) == len(cborData)
+
+//@ func (t *ByronTransactionBody) UnmarshalCBOR(cborData) (err)
+//@   props C01
+//@   attr maxpaths 4000
+//@   attr safe off
+//@   requires recv: t != nil
+//@   ensures stored: err == nil ==> seq(t.cborData) == seq(cborData) && len(t.cborData) == len(cborData)
+
+//@ func (t *ByronTransaction) UnmarshalCBOR(cborData) (err)
+//@   props C01
+//@   attr maxpaths 4000
+//@   attr safe off
+//@   requires recv: t != nil
+//@   ensures stored: err == nil ==> seq(t.cborData) == seq(cborData) && len(t.cborData) == len(cborData)
+
+//@ func (p *ByronUpdateProposal) UnmarshalCBOR(cborData) (err)
+//@   props C01
+//@   attr maxpaths 4000
+//@   attr safe off
+//@   requires recv: p != nil
+//@   ensures stored: err == nil ==> seq(p.cborData) == seq(cborData) && len(p.cborData) == len(cborData)
+
+//@ func (b *ByronMainBlockBody) UnmarshalCBOR(cborData) (err)
+//@   props C01
+//@   attr maxpaths 4000
+//@   attr safe off
+//@   requires recv: b != nil
+//@   ensures stored: err == nil ==> seq(b.cborData) == seq(cborData) && len(b.cborData) == len(cborData)
+
+//@ func (h *ByronEpochBoundaryBlockHeader) UnmarshalCBOR(cborData) (err)
+//@   props C01
+//@   attr maxpaths 4000
+//@   attr safe off
+//@   requires recv: h != nil
+//@   ensures stored: err == nil ==> seq(h.cborData) == seq(cborData) && len(h.cborData) == len(cborData)
+
+//@ func (b *ByronMainBlock) UnmarshalCBOR(cborData) (err)
+//@   props C01
+//@   attr maxpaths 4000
+//@   attr safe off
+//@   requires recv: b != nil
+//@   ensures stored: err == nil ==> seq(b.cborData) == seq(cborData) && len(b.cborData) == len(cborData)
+
+//@ func (b *ByronEpochBoundaryBlock) UnmarshalCBOR(cborData) (err)
+//@   props C01
+//@   attr maxpaths 4000
+//@   attr safe off
+//@   requires recv: b != nil
+//@   ensures stored: err == nil ==> seq(b.cborData) == seq(cborData) && len(b.cborData) == len(cborData)
+
+//@ func (t *ByronTransactionBody) Id() (r)
+//@   props C01
+//@   requires recv: t != nil
+//@   requires cache: t.hash == nil || *t.hash == H256(seq(t.cborData))
+//@   assigns t.hash
+//@   ensures id: r == H256(seq(t.cborData))
+//@   ensures cache: t.hash != nil && *t.hash == H256(seq(t.cborData))
+// END generated C01 contracts
